@@ -30,11 +30,21 @@ import (
 	"i2psim.local/sim/instrument"
 )
 
-const (
-	verifDir = "/verif"
-	simDir   = "/verif/sim"
-	goBin    = "go1.26.8"
+const goBin = "go1.26.8"
+
+// verifDir is /verif, or the snapshot of it the driver was started from
+// (VERIF_ROOT is set by bin/check from its own location).
+var (
+	verifDir = envOr("VERIF_ROOT", "/verif")
+	simDir   = filepath.Join(verifDir, "sim")
 )
+
+func envOr(k, def string) string {
+	if v := os.Getenv(k); v != "" {
+		return v
+	}
+	return def
+}
 
 type propCfg struct {
 	World        string
